@@ -442,9 +442,11 @@ def denoteStep (g : PGraph) (inp : Nat → Option (Arr Val)) (den : Nat → Opti
     if axis ≥ 0 then (allSomeArr (cs.map den)).map fun as => Spec.concatenate axis.toNat as .undef
     else none
   | .index c ix =>
-    -- a basic index (integers and normalised slices): indexing with those slices
+    -- a basic index (integers and normalised slices): indexing with those slices; an index of
+    -- full slices only (`a[:, :]`) is the array (`gIndex_trivial` in PtProofs.PyGenIndexLemmas:
+    -- same shape, same element at every index of the right length)
     (match toGs ix, den c with
-     | some gs, some a => some (gIndex gs a)
+     | some gs, some a => some (if emittedIdxCount ix a.shape = 0 then a else gIndex gs a)
      | _, _ => none)
   | .alias c => den c
   | _ => none
@@ -481,6 +483,7 @@ def kidsOf (g : PGraph) (i : Nat) : List Nat :=
   | .stack cs _ => cs
   | .concat cs _ => cs
   | .index c ix => c :: ix.filterMap fun | .arr k => some k | _ => none
+  | .indexNC c ix => c :: ix.filterMap fun | .arr k => some k | _ => none
   | .einsum _ cs => cs
   | .alias c => [c]
   | .dict items => items.map (·.2)
@@ -563,10 +566,9 @@ def suppNode (g : PGraph) (i : Nat) : Bool :=
   | .stack _ axis => decide (axis ≥ 0)
   | .concat _ axis => decide (axis ≥ 0)
   | .index c ix =>
-    -- basic indices whose slices are in the range of `_normalize_slice`, one entry per axis, at
-    -- least one entry written (an index of trivial slices only is its child: outside the fragment)
+    -- basic indices whose slices are in the range of `_normalize_slice`, one entry per axis
     (match staticShape (g.get c).shape with
-     | some cshape => basicNorm ix cshape && decide (emittedIdxCount ix cshape > 0)
+     | some cshape => basicNorm ix cshape
      | none => false)
   | .alias _ => true
   | .dict _ => true
@@ -598,6 +600,7 @@ def PNode.kindName : PNode → String
   | .indexLambda .. => "IndexLambda" | .roll .. => "Roll" | .perm .. => "AxisPermutation"
   | .reshape .. => "Reshape" | .stack .. => "Stack" | .concat .. => "Concatenate"
   | .index _ ix => if ix.any (fun | .arr _ => true | _ => false) then "AdvancedIndex" else "BasicIndex"
+  | .indexNC .. => "AdvancedIndex"
   | .einsum .. => "Einsum" | .alias _ => "NamedArray" | .dict _ => "DictOfNamedArrays"
   | .refused k => k | .other k => k
 
